@@ -161,7 +161,7 @@ func DecodePostgres(data []byte) (PostgresRow, error) {
 
 	// log
 	pos = bytes.IndexByte(data, logDelimiter)
-	if pos < 0 {
+	if pos < 0 || pos+2 > len(data) {
 		return row, fmt.Errorf("log is not found")
 	}
 
